@@ -265,6 +265,11 @@ def call(X, st, name, args, kwargs):
         return [Res(st, VBool(b))]
     if name == "sum":
         return method(X, st, args[0], "sum", [], {})
+    if name == "where" and len(args) == 3:
+        c = read(st, args[0])
+        n1, ea = elementwise(X, st, args[1], args[1], lambda x, y: x, "float")
+        n2, eb = elementwise(X, st, args[2], args[2], lambda x, y: x, "float")
+        return [Res(st, new_arr(st, c.length, lambda i, c=c: vite(c.elem(i).t, ea(i), eb(i)), "float"))]
     if name in ("histogram", "unique", "average"):
         # reductions with data-dependent structure: this *path* is outside the proof (bounded stand-in)
         st.events.append(("np-out-of-reach", name))
